@@ -223,11 +223,18 @@ def e_ListComp(self, st, node):
 
 
 def e_GeneratorExp(self, st, node):
+    # evaluated eagerly like a list comprehension (sound when it is consumed completely and
+    # its element expressions have no side effects the consumer depends on)
+    if getattr(self, "eager_genexp", True) and len(node.generators) == 1:
+        return e_ListComp(self, st, node)
     return [(st, "val", Top("genexp@%s" % getattr(node, "lineno", 0)))]
 
 
-e_SetComp = e_GeneratorExp
-e_DictComp = e_GeneratorExp
+def e_SetComp(self, st, node):
+    return [(st, "val", Top("comp@%s" % getattr(node, "lineno", 0)))]
+
+
+e_DictComp = e_SetComp
 
 
 # ----------------------------------------------------------------------
@@ -527,6 +534,11 @@ def x_order(self, st, op, a, b):
 
 
 def x_in(self, st, a, b, node):
+    if hasattr(b, "abs_contains"):
+        r = b.abs_contains(a)
+        if r is not None:
+            return r
+        return Top("in:" + repr(b), True)
     if isinstance(b, Ref):
         o = st.obj(b)
         if o.kind == "set" and o.items is not None and isinstance(a, Ref):
@@ -749,11 +761,18 @@ def get_attr(self, st, base, attr, node, default=KeyError):
             return [(st, "val", BoundMeth(base, m))]
         if attr == "__class__":
             return [(st, "val", ClassVal(ci))]
+        if attr in ci.class_consts and not attr.startswith("_"):
+            a2 = _enum_canonical(ci, attr)
+            return [(st, "val", EnumVal(ci.name, a2, ci.enum_members.get(a2)))]
+        fv = _enum_init_field(self, st, ci, base, attr)
+        if fv is not KeyError:
+            return [(st, "val", fv)]
         raise U_("enum attribute %s.%s" % (base, attr))
     if isinstance(base, ClassVal):
         ci = base.cls
         if isinstance(ci, ClassInfo):
             if ci.is_enum and attr in ci.class_consts:
+                attr = _enum_canonical(ci, attr)
                 return [(st, "val", EnumVal(ci.name, attr, ci.enum_members.get(attr)))]
             if attr == "__name__":
                 return [(st, "val", ci.name)]
@@ -773,6 +792,8 @@ def get_attr(self, st, base, attr, node, default=KeyError):
             if attr == "__members__" and ci.is_enum:
                 return [(st, "val", st.alloc(HObj("dict", kind="dict", items=[
                     (n, EnumVal(ci.name, n, v)) for n, v in ci.enum_members.items()])))]
+            if ci.name + "." + attr in self.stubs:
+                return [(st, "val", BoundMeth(base, None, attr))]
             raise U_("class attribute %s.%s at %s" % (ci.name, attr, self.loc(node)))
         if attr == "__name__":
             return [(st, "val", base.name())]
@@ -826,6 +847,44 @@ def get_attr(self, st, base, attr, node, default=KeyError):
     if isinstance(base, Exc):
         return [(st, "val", Top("exc." + attr, True))]
     raise U_("attribute %s on %r at %s" % (attr, base, self.loc(node)))
+
+
+def _enum_canonical(ci, attr):
+    """NAME = OTHER_MEMBER inside an Enum body is an alias of OTHER_MEMBER"""
+    seen = set()
+    while attr not in seen:
+        seen.add(attr)
+        v = ci.class_consts.get(attr)
+        if isinstance(v, ast.Name) and v.id in ci.class_consts:
+            attr = v.id
+        else:
+            break
+    return attr
+
+
+def _enum_init_field(self, st, ci, member, attr):
+    """member.<attr> where the Enum's __init__ stores its value tuple: self.<attr> = <param>"""
+    init = ci.lookup("__init__")
+    vnode = ci.class_consts.get(_enum_canonical(ci, member.name))
+    if init is None or vnode is None:
+        return KeyError
+    params = [a.arg for a in init.node.args.args[1:]]
+    elts = list(vnode.elts) if isinstance(vnode, ast.Tuple) else [vnode]
+    if len(elts) != len(params):
+        return KeyError
+    me = init.node.args.args[0].arg
+    for n in ast.walk(init.node):
+        if isinstance(n, ast.Assign) and len(n.targets) == 1 and isinstance(n.targets[0], ast.Attribute) and \
+                isinstance(n.targets[0].value, ast.Name) and n.targets[0].value.id == me and n.targets[0].attr == attr and \
+                isinstance(n.value, ast.Name) and n.value.id in params:
+            e = elts[params.index(n.value.id)]
+            if isinstance(e, ast.Name):
+                return self.x_global(st, ci.module, e.id, e)
+            try:
+                return self.x_lift(st, self.ix.fold(e, ci.module))
+            except NotConst:
+                return Top("enum-field:" + attr)
+    return KeyError
 
 
 def x_class_of(self, st, v):
